@@ -875,6 +875,12 @@ class PytatoKeyBuilder(LoopyKeyBuilder):
         self.rec(key_hash, key.shape)
         self.rec(key_hash, key.data.tobytes())
 
+    def update_for_numpy_scalar(self, key_hash: Any, key: Any) -> None:
+        # The raw bytes alone do not determine the scalar:
+        # np.float32(1) and np.int32(0x3f800000) share them.
+        self.rec(key_hash, key.dtype)
+        super().update_for_numpy_scalar(key_hash, key)
+
     def update_for_TaggableCLArray(self, key_hash: Any, key: Any) -> None:
         from arraycontext.impl.pyopencl.taggable_cl_array import (  # pylint: disable=import-error
             TaggableCLArray,
